@@ -283,7 +283,7 @@ def tree_case(rng, entries, n_files=6):
          "tmpl": rng.choice(["default"] * 5 + ["adds-text", "no-contributors", "commented"]),
          "dot": rng.choice([None, "force", "fallback", "fallback", "skip", "skip"]),
          "no_replace": rng.random() < 0.1, "merge": rng.random() < 0.1, "skip_existing": rng.random() < 0.05}
-    if all(f["kind"] != "unrecognised" for f in files if f["scope"]) and rng.random() < 0.5:
+    if all(f["kind"] != "unrecognised" and recognised_name(f["name"]) for f in files if f["scope"]) and rng.random() < 0.5:
         o["dot"] = None
     cpr, lic, con = rand_request(rng)
     return dict(o, files=files, paths=paths, recursive=True, cpr=cpr, lic=lic, con=con)
@@ -601,6 +601,17 @@ def obstacle(data, want, merged):
     return None
 
 
+def recognised_name(name):
+    """Does the name select a comment style as documented: by the file name, else by the extension (= the last suffix)?
+    (An entry such as '.nim.cfg' of the extension table is not an extension in that sense: 'x.nim.cfg' has the extension
+    '.cfg'; which names resolve to which entry is the matter of C07's `styleof` stream.)"""
+    from reuse import comment
+    base = os.path.basename(name).lower()
+    if base in {k.lower() for k in comment.FILENAME_COMMENT_STYLE_MAP}:
+        return True
+    return os.path.splitext(base)[1] in {k.lower() for k in comment.EXTENSION_COMMENT_STYLE_MAP}
+
+
 def judge_file(case, f, rec, single_rc):
     """The property, for one file of one run.  `single_rc` is the exit status that belongs to this file.
     Returns None or 'kind: description' (with ' {shape=KEY}' appended when the failing input has the shape of a
@@ -635,7 +646,7 @@ def judge_file(case, f, rec, single_rc):
             info = lint_read_bytes(bytes.fromhex(had[1]), window=False) if had and had[0] == "file" else None
             if info is not None and any(info):
                 return None
-        if case.get("dot") == "skip" and f.get("kind") == "unrecognised" and not case.get("style"):
+        if case.get("dot") == "skip" and (f.get("kind") == "unrecognised" or not recognised_name(name)) and not case.get("style"):
             return None
         if not missing(want, got, merged):
             return None
